@@ -4428,3 +4428,43 @@ def evs1(proj, rep, modules=None):
                               f'number of eigenvalues, so a fixed `[0]` / `[-1]` picks the wrong one', m, c)
     rep.count('EVS1.windows', n)
     return n
+
+
+RULE_SELF1 = ('SELF1: contradictions that need no specification: no `x - x`, `x / x`, `x % x`, `x ^ x` on one call-free operand (the second operand was meant to be a sibling), '
+              'no if / conditional expression whose two arms are the same code, no dictionary display with a repeated key.')
+
+
+def self1(proj, rep, modules=None):
+    rep.rule('SELF1', RULE_SELF1)
+    n = 0
+    pure = lambda e: not isinstance(e, ast.Constant) and not any(isinstance(x, (ast.Call, ast.Lambda, ast.IfExp, ast.ListComp, ast.GeneratorExp)) for x in ast.walk(e))
+    for m in proj.modules.values():
+        if not _in_scope(m, modules):
+            continue
+        for c in ast.walk(m.tree):
+            if isinstance(c, ast.BinOp) and isinstance(c.op, (ast.Sub, ast.Div, ast.FloorDiv, ast.Mod, ast.BitXor)):
+                n += 1
+                if pure(c.left) and ast.dump(c.left) == ast.dump(c.right):
+                    rep.touch(m)
+                    rep.violation('SELF1', m.name, f'`{ast.unparse(c)[:60]}` combines an operand with itself: the result is a constant, one side was meant to be another value', m, c)
+            elif isinstance(c, ast.If) and c.orelse:
+                n += 1
+                if [ast.dump(x) for x in c.body] == [ast.dump(x) for x in c.orelse]:
+                    rep.touch(m)
+                    rep.violation('SELF1', m.name, f'both arms of `if {ast.unparse(c.test)[:50]}` are the same code: the test has no effect', m, c)
+            elif isinstance(c, ast.IfExp):
+                n += 1
+                if ast.dump(c.body) == ast.dump(c.orelse):
+                    rep.touch(m)
+                    rep.violation('SELF1', m.name, f'`{ast.unparse(c)[:60]}` has identical arms', m, c)
+            elif isinstance(c, ast.Dict):
+                n += 1
+                ks = [ast.dump(k) for k in c.keys if isinstance(k, ast.Constant)]
+                if len(ks) != len(set(ks)):
+                    rep.touch(m)
+                    rep.violation('SELF1', m.name, 'a dictionary display repeats a key: the earlier entry is silently dropped', m, c)
+    rep.count('SELF1.sites', n)
+    if n:
+        mm = proj.mod('numqi.utils')
+        rep.ok('SELF1', 'scope', f'{n} binary operations / conditionals / dictionary displays scanned', mm, mm.tree, text='self1 sweep')
+    return n
